@@ -300,6 +300,17 @@ example :
     ids (search c { terms := [("f", .int (.plain (.bare (.range none none))))], sortIndex := some "f",
                     limit := some 2, reverse := true }) = some (2, [1, 2]) := by decide
 
+/-- the hypotheses of the end-to-end theorems are met: the indexes are fresh, the specification's
+per-index answers exist -/
+example : ∀ e ∈ c0, Fresh e.ix := by
+  intro e he
+  simp only [c0, setitem] at he
+  simp at he
+  rcases he with rfl | rfl <;> rfl
+
+example : [("f", QArg.int (.plain (.bare (.val 3)))), ("k", .int (.plain (.seq [.val 1])))].map
+    (specResolve c0 hist) = [[5, 2], [2, 3, 1]].map Except.ok := by rfl
+
 end nonvac
 
 end Hyp.Catalog
